@@ -160,7 +160,7 @@ func (iter MultisetCombinationIterator) FreqValue() []int {
 }
 
 //Next attempts to advance the iterator to the next multiset, returning true if there is one and false if not.
-//This is an implementation of Algorithm Q from The Art of Computer Programming Volume 4a section 7.2.1.3.
+//The multisets are generated in the order of Algorithm Q from The Art of Computer Programming Volume 4a section 7.2.1.3.
 func (iter *MultisetCombinationIterator) Next() bool {
 	if iter.state == nil {
 		//Initial call
@@ -180,76 +180,32 @@ func (iter *MultisetCombinationIterator) Next() bool {
 			break
 		}
 		if x > 0 {
+			//There are not enough elements. Forget the partial state so that the iterator stays exhausted.
+			iter.state = nil
 			return false
 		}
 
 		return true
 	}
 
-	//Q4
+	//Find the successor in colexicographic order of the frequency vectors: increase the first position j >= 1 which is not full and has something before it, and pack the remaining elements into the earliest positions. This also works when some m[i] are zero (which Algorithm Q does not allow) and leaves the state untouched once the iterator is exhausted.
 	x := 0
-	j := iter.j
-	if j == 0 {
-		x = iter.state[0] - 1
-		j = 1
-	} else if iter.state[0] == 0 {
-		x = iter.state[j] - 1
-		iter.state[j] = 0
-		j++
-	} else {
-		goto Q7
-	}
-
-	//Q5
-Q5:
-	if j >= len(iter.m) {
-		return false
-	}
-
-	if iter.state[j] == iter.m[j] {
-		x += iter.m[j]
-		iter.state[j] = 0
-		j++
-		goto Q5
-	}
-
-	//Q6
-	iter.state[j]++
-	if x == 0 {
-		iter.state[0] = 0
-		iter.j = j
-		return true
-	}
-
-	//Q2 again
-	for j = 0; j < len(iter.m); j++ {
-		if x > iter.m[j] {
-			iter.state[j] = iter.m[j]
-			x -= iter.m[j]
-			continue
+	for j := 0; j < len(iter.m); j++ {
+		if j > 0 && x > 0 && iter.state[j] < iter.m[j] {
+			iter.state[j]++
+			x--
+			for i := 0; i < j; i++ {
+				if x > iter.m[i] {
+					iter.state[i] = iter.m[i]
+					x -= iter.m[i]
+				} else {
+					iter.state[i] = x
+					x = 0
+				}
+			}
+			return true
 		}
-		iter.state[j] = x
-		x = 0
-		break
+		x += iter.state[j]
 	}
-	iter.j = j
-	return true
-
-	//Q7
-Q7:
-	for iter.state[j] == iter.m[j] {
-		j++
-		if j >= len(iter.m) {
-			return false
-		}
-	}
-
-	iter.state[j]++
-	j--
-	iter.state[j]--
-	if iter.state[0] == 0 {
-		j = 1
-	}
-	iter.j = j
-	return true
+	return false
 }
